@@ -41,6 +41,8 @@ def finding_for(kf, prop, item):
 
 BX_WHY = {
     'bx:sync': 'no verifier in reach (proc-macro generated code); bounded drip-feed check of the real code',
+    'bx:auenc': 'AuEncode::work (float quantisation loop writing through sub-slices of the write window) is not under a Verus '
+                'contract yet; bounded check of the real code: header then big-endian PCM16 for every schedule tried',
     'bx:dsp': 'floating-point blocks: no verifier here has a float theory and most of these bodies are iterator/FFT code; bounded '
               'differential check of the real code (a roomy run and an adversarial drip-fed run of the same input must give '
               'bit-identical output; one-to-one blocks must deliver each tag once at the same index)',
@@ -137,35 +139,49 @@ def main():
                     k = finding_for(kf, prop, f)
                     (known if k else violations).append((f, k, r))
             continue
+        def bounded_standin(reason):
+            """The verifier could not decide this unit (restructured function / proof script does not fit).  Stand-in: a
+            BOUNDED check of the same contract on the real code.  A divergence is a violation with a concrete input; no
+            divergence leaves the property undecided (a bounded run proves nothing)."""
+            if uname not in bx.UNIT_HARNESS:
+                undecided.append('%s: %s' % (uname, reason))
+                return
+            br = bx.run([uname], REPO, seed=seed)
+            bounded.append({'unit': uname, 'bounded': True, 'why': 'verifier could not reach: ' + reason[:200],
+                            'harness': bx.UNIT_HARNESS[uname][0], 'stats': br.stats, 'status': br.status, 'cmd': br.cmd})
+            cmds.append(br.cmd)
+            for b in br.fails:
+                if prop in finder.props_of(b):
+                    f = {'unit': 'bounded:' + uname, 'fn': b.get('target'), 'label': b.get('label'), 'kind': 'bounded-contract-check',
+                         'props': finder.props_of(b), 'message': b.get('what'), 'src': None, 'stmt': '', 'rendered': str(b),
+                         'counterexample': {'kind': 'bounded-harness', 'harness': bx.UNIT_HARNESS[uname][0], 'failure': b, 'cmd': br.cmd}}
+                    k = finding_for(kf, prop, f)
+                    (known if k else violations).append((f, k, br))
+                    return
+            undecided.append('%s: %s (bounded stand-in %s: %s)' % (uname, reason, bx.UNIT_HARNESS[uname][0],
+                             'no divergence found' if br.status == 'ok' else br.status + ' ' + br.reason[:100]))
+
         if r.status == 'undecided':
             extraction = any(r.reason.startswith(x) for x in ('lost anchor', 'verus/rustc error', 'rule engine', 'extractor error'))
-            if extraction and uname in bx.UNIT_HARNESS:
-                # The function was restructured beyond what the spliced proof fits.  Stand-in: a BOUNDED check of the
-                # same contract on the real code.  A divergence is a violation with a concrete input; no divergence
-                # leaves the property undecided (a bounded run proves nothing).
-                br = bx.run([uname], REPO, seed=seed)
-                bounded.append({'unit': uname, 'bounded': True, 'why': 'verifier could not reach: ' + r.reason[:200],
-                                'harness': bx.UNIT_HARNESS[uname][0], 'stats': br.stats, 'status': br.status, 'cmd': br.cmd})
-                cmds.append(br.cmd)
-                for b in br.fails:
-                    if prop in finder.props_of(b):
-                        f = {'unit': 'bounded:' + uname, 'fn': b.get('target'), 'label': b.get('label'), 'kind': 'bounded-contract-check',
-                             'props': finder.props_of(b), 'message': b.get('what'), 'src': None, 'stmt': '', 'rendered': str(b),
-                             'counterexample': {'kind': 'bounded-harness', 'harness': bx.UNIT_HARNESS[uname][0], 'failure': b, 'cmd': br.cmd}}
-                        k = finding_for(kf, prop, f)
-                        (known if k else violations).append((f, k, br))
-                        break
-                else:
-                    undecided.append('%s: %s (bounded stand-in %s: %s)' % (uname, r.reason, bx.UNIT_HARNESS[uname][0],
-                                     'no divergence found' if br.status == 'ok' else br.status + ' ' + br.reason[:100]))
-                continue
-            undecided.append('%s: %s' % (uname, r.reason))
+            if extraction:
+                bounded_standin(r.reason)
+            else:
+                undecided.append('%s: %s' % (uname, r.reason))
             continue
         fails = [f for f in r.failures if prop in (f['props'] or [])]
         if fails and not uname.startswith('kani:'):
             fails, flaky = confirm_failures(uname, r)
             fails = [f for f in fails if prop in (f['props'] or [])]
             flaky_all += [f for f in flaky if prop in (f['props'] or [])]
+            # An unlabelled `assert` inside a spliced proof block is a HINT for the solver, not a contract clause.  When
+            # hints are all that fails, the proof script no longer fits the (restructured) code: that is undecided, not a
+            # violation -- but not OK either, since Verus assumes a failed assert afterwards.  When contract clauses fail
+            # too, those are what is reported.
+            hints = [f for f in fails if f['kind'] == 'assert' and (f['label'] or '').endswith('.assert')]
+            if hints and len(hints) == len(fails):
+                bounded_standin('proof hints do not fit the code any more: ' + '; '.join(sorted({(h.get('stmt') or '')[:80] for h in hints}))[:300])
+                continue
+            fails = [f for f in fails if f not in hints]
         ob, dis, fl, sm = r.account(prop) if hasattr(r, 'account') else account_verus(r, prop)
         # obligations listed as known findings are reported separately (coverage.known_finding_obligations) and are
         # not part of what this run claims to have proved
@@ -245,7 +261,11 @@ def main():
     rc = 0
     if violations:
         import replay
+        seen_v = set()
         for f, _k, r in violations:
+            if (f['fn'], f['label']) in seen_v:
+                continue
+            seen_v.add((f['fn'], f['label']))
             path, found = replay.write(prop, f, r, REPO, tier)
             print('VIOLATION property=%s replay=%s obligation=%s::%s%s' % (
                 prop, path, f['fn'], f['label'], '' if found else ' no-failing-input-found'))
